@@ -28,6 +28,7 @@ Element identities among equal distances are never compared (ties are broken by 
 import collections
 import concurrent.futures
 import os
+import zlib
 
 from lib import core
 
@@ -42,7 +43,9 @@ METRICS = {
     "l1": (2, lambda a, b: abs(a[0] - b[0]) + abs(a[1] - b[1])),
     "linf": (2, lambda a, b: max(abs(a[0] - b[0]), abs(a[1] - b[1]))),
     "table6": (1, lambda a, b: TABLE6[a[0]][b[0]]),
+    "abs3": (1, lambda a, b: (abs(a[0] - b[0]) + 2) // 3),       # ceil(|a-b|/3): a metric with many exact ties
 }
+SWITCH = {"abs1": "abs3", "abs3": "abs1", "l1": "linf", "linf": "l1"}     # what `setdist` may switch to
 KINDS = ["linear", "sqrt", "gnat", "gnatnts"]
 HUGE = 10 ** 9
 SENTINEL = (987654321, 987654321)     # what harness/nn.cpp pre-fills the reused result vector with
@@ -121,6 +124,7 @@ def ps(p):
 def gen_script(rng, kind, metric, prm, dname, nops, maxn=60):
     d = Dist(rng, metric, dname)
     mfun = METRICS[metric][1]
+    cur = metric
     lines = [header(kind, metric, prm)]
     held = []                      # the generator's own idea of the contents (a hint only)
 
@@ -180,8 +184,14 @@ def gen_script(rng, kind, metric, prm, dname, nops, maxn=60):
                 else:
                     rad = rng.below(d.span if dname == "uniform" else 12)
                 lines.append("nr %s %d" % (ps(q), rad))
+            elif r < 97:
+                lines.append("list" if not (kind.startswith("gnat") and rng.chance(1, 3)) else rng.choice(["integrity", "print"]))
             elif r < 98:
-                lines.append("list")
+                lines.append("sorted")
+            elif r < 99 and cur in SWITCH:
+                cur = SWITCH[cur]                  # setDistanceFunction AFTER elements were added
+                mfun = METRICS[cur][1]
+                lines.append("setdist " + cur)
             else:
                 lines.append("size")
     # closing sweep: every k and the three kinds of radius on the final contents
@@ -451,6 +461,17 @@ def oracle(script, out):
                 exp = "ok"
             elif op == "size":
                 exp = str(n)
+            elif op in ("integrity", "print"):
+                exp = "ok"                    # GNAT debugging members: integrityCheck() silent, operator<< does not crash
+            elif op == "noisefree":
+                exp = "ok"                    # releases the harness's heap-layout noise blocks; no effect on the contents
+            elif op == "sorted":
+                exp = "1"                     # reportsSortedResults(): all shipped structures sort their answers
+            elif op == "setdist":
+                if METRICS[t[1]][0] != dim:
+                    raise Fail(i, "unknown op in script", "protocol")
+                mfun = METRICS[t[1]][1]       # from now on brute force (and GnatInv on the dump) use the new function
+                exp = "ok"
             elif op == "list":
                 srt = sorted(M.elements())
                 exp = ("n=%d " % len(srt) + " ".join(ps(p) for p in srt)).strip()
@@ -563,13 +584,13 @@ def injection_script(script, out):
         if len(parts) < 3:
             break
         op = line.split()[0]
-        if op in ("nst", "nk", "nr"):
+        if op in ("nst", "nk", "nr", "sorted"):
             r = canon(parts[0])
             if op == "nst" and r != "none":
                 r = r.split()[0]
             drv.append(line)
             exp.append((i, "query", r))
-        if op in ("add", "addv", "rm", "clear"):
+        if op in ("add", "addv", "rm", "clear", "setdist"):
             # lock-step: the model's operation on the previously injected state, with this operation's
             # k-centers draws, must produce exactly the dump of the real tree
             draws, plain = split_dump(parts[2])
@@ -687,6 +708,46 @@ def variants_agree(ck, hbin, script, out, reuse):
     return None, same, max(len(out), len(out2))
 
 
+def tie_elems(line):
+    """the element list of a k-nearest / radius answer (None for other lines)"""
+    r = line.split(" | ")[0]
+    if r.startswith("k=") and " e=" in r:
+        return r[r.index(" e=") + 3:]
+    return None
+
+
+def layout_independent(ck, hbin, script):
+    """F202 made explicit.  The property speaks about distances and (multi)sets: among exactly tied neighbours any
+    choice and any order is a correct answer, so against brute force ties are compared as sets.  (The GNAT used to order
+    ties by element ADDRESS; fixed in /repo by fd1d3e76b, so the element order of an answer must now be layout
+    independent too -- checked below.)  Everything the property does talk about must not depend on the heap layout: the same history is run with two layouts (`noise=0` / `noise=1`
+    with the noise blocks released after a third of the operations, allocator in reuse mode so that later tree
+    allocations land below earlier ones) and results as distance lists, size(), list() as a multiset and the whole
+    tree dump must coincide.  Returns (None | (step, a, b), number of answers whose tie ORDER differs, answers)."""
+    ops = script[1:]
+    cut = max(1, len(ops) // 3)
+    ops = ops[:cut] + ["noisefree"] + ops[cut:]
+    outs = []
+    for noise in (0, 1):
+        o, _r = evaluate(ck, hbin, [script[0] + " noise=%d" % noise] + ops, True)
+        outs.append(o)
+    a, b = outs
+    differs = answers = 0
+    for i in range(max(len(a), len(b))):
+        va = variant_view(a[i]) if i < len(a) else (("<missing>", ""), "")
+        vb = variant_view(b[i]) if i < len(b) else (("<missing>", ""), "")
+        if va != vb:
+            return (i, a[i] if i < len(a) else "<missing>", b[i] if i < len(b) else "<missing>", ops), differs, answers
+        ea, eb = tie_elems(a[i]), tie_elems(b[i])
+        if ea is not None:
+            answers += 1
+            if ea != eb:
+                # since fix fd1d3e76b (F202) the answer queue is ordered by distance only: the ORDER (and choice) among
+                # exactly tied neighbours is a function of seed, history and query, no longer of addresses
+                return (i, a[i], b[i], ops), differs + 1, answers
+    return None, differs, answers
+
+
 # ---------------------------------------------------------------------------------- judging
 # The harness is built with ASan, whose quarantine keeps freed chunks out of circulation, so a stale address
 # (e.g. in GNAT's removed_ set) never meets a new element.  "reuse" mode switches the quarantine off so that
@@ -783,6 +844,19 @@ def judge(ck, hbin, script, tag, lock):
                 if new:
                     ck.log("GNAT variants disagree at step %d: %r vs %r" % (bad[0], bad[1][:160], bad[2][:160]))
                 return not new
+    if kv["kind"].startswith("gnat") and res["fail"] is None and (tag != "random" and not tag.startswith("random") or zlib.crc32("\n".join(script).encode()) % 3 == 0):
+        bad, differs, answers = layout_independent(ck, hbin, script)
+        with lock:
+            ck.count("gnat-layout:histories-run-with-two-heap-layouts")
+            ck.count("gnat-layout:answers-compared", answers)
+            ck.count("gnat-layout:answers-whose-element-order-differs-between-layouts", differs)
+            if bad is not None:
+                new = ck.report({"engine": ENGINE, "kind": kv["kind"], "metric": kv["metric"], "class": "layout-dependent", "alloc": "reuse",
+                                 "what": "distance lists / element order of an answer / size / list / tree depend on the heap layout (step %d)" % bad[0]},
+                                script=[script[0] + " noise=1"] + bad[3][:bad[0] + 1], expected=["noise=0: " + bad[1][:400]], observed=["noise=1: " + bad[2][:400]], engine=ENGINE)
+                if new:
+                    ck.log("heap-layout dependence at step %d: %r vs %r" % (bad[0], bad[1][:160], bad[2][:160]))
+                return not new
     with lock:
         ck.traces_validated += 1
         ck.case(tuple(script), res["queries"] > 0 and res["maxn"] >= 4 and (res["internal"] or not kv["kind"].startswith("gnat")))
@@ -797,7 +871,7 @@ def judge(ck, hbin, script, tag, lock):
             ck.count("gnat:dumps-inv-checked", len(out))
             if corr is None and res["fail"] is None:
                 ck.count("gnat:ops-lockstep-model-vs-real-dump",
-                         sum(1 for ln, o in zip(script[1:], out) if ln.split()[0] in ("add", "addv", "rm", "clear") and o.count(" | ") >= 2))
+                         sum(1 for ln, o in zip(script[1:], out) if ln.split()[0] in ("add", "addv", "rm", "clear", "setdist") and o.count(" | ") >= 2))
                 ck.count("gnat:ops-lockstep-with-split-or-rebuild",
                          sum(1 for o in out if o.count(" | ") >= 2 and " draws=0" not in o.split(" | ")[2][:80]))
             if res["internal"]:
@@ -999,21 +1073,21 @@ def run(ck):
     for kind in ("gnat", "gnatnts"):
         for j in range(nref):
             r = ck.rng.fork("refill-%s-%d" % (kind, j))
-            jobs.append((gen_refill(r, kind, metrics[j % 4], dnames[(j // 4) % 4]), "refill"))
+            jobs.append((gen_refill(r, kind, metrics[j % len(metrics)], dnames[(j // len(metrics)) % 4]), "refill"))
     # generator class stale-result-vector (all four structures)
     nemp = 12 if ck.tier == "quick" else 120
     for kind in KINDS:
         for j in range(nemp):
             r = ck.rng.fork("empty-%s-%d" % (kind, j))
             prm = gen_params(r, safe=True) if kind.startswith("gnat") else None
-            jobs.append((gen_empty_states(r, kind, metrics[j % 4], prm, dnames[(j // 4) % 4]), "empty-states"))
+            jobs.append((gen_empty_states(r, kind, metrics[j % len(metrics)], prm, dnames[(j // len(metrics)) % 4]), "empty-states"))
     idx = 0
     for kind in KINDS:
         reps = nper * (3 if kind.startswith("gnat") else 1)
         for j in range(reps):
             r = ck.rng.fork("%s-%d" % (kind, j))
-            metric = metrics[idx % 4]
-            dname = dnames[(idx // 4) % 4]
+            metric = metrics[idx % len(metrics)]
+            dname = dnames[(idx // len(metrics)) % 4]
             idx += 1
             prm = gen_params(r, safe=(j % 3 != 2)) if kind.startswith("gnat") else None
             nops = r.choice([25, 60, 120])
@@ -1086,7 +1160,9 @@ MANIFEST = {
             "SelfConfig::getDefaultNearestNeighbors hands a GNAT variant only to spaces claiming to be metric and SqrtApprox (exact "
             "nearestK/R for any distance function) otherwise (default_nn_exact_only_if_metric), compared with the real selection by "
             "dynamic type on shipped spaces x planners; the two GNAT variants agree (gnat_variants_agree) and are run against each "
-            "other on identical histories.",
+            "other on identical histories. setDistanceFunction after adds (rebuild under the new function), reportsSortedResults, "
+            "integrityCheck and operator<< are driven; exact distance ties are compared as sets (F202: the GNAT orders ties by "
+            "address) while distance lists, size, list and the tree itself must be identical under two heap layouts.",
     "note": "Trusted: Lean kernel, the three standard axioms, the hand-written model outside what the correspondence explored "
             "(addresses -> ids, unstable sort, add()'s isRemoved test on the caller's object), the harness. Operation theorems "
             "assume degree/minDegree/maxDegree >= 1 (minDegree = 0 makes the real split() call kcenters with k = 0: candidate "
